@@ -560,8 +560,20 @@ SNAP_NAMES = ["accu", "pc", "memory", "loaded instruction", "address of current 
 def run_halves_case(case, res):
     from architecture_simulator.simulation.runtime_errors import StepSequenceError
 
-    A, refA = setup(case)
-    B, _ = setup(case)
+    if case.get("abandoned"):
+        # both twins are machines that were left in the MIDDLE of an instruction of another program (only its first half
+        # was executed) before the program of this case was loaded into them
+        def _abandoned():
+            s_ = new_sim("INC\nDEC\nINC")
+            s_.first_cycle_step()
+            return s_
+
+        A, refA = setup(case, _abandoned())
+        B, _ = setup(case, _abandoned())
+        res.count("loaded_into_machine_abandoned_mid_instruction")
+    else:
+        A, refA = setup(case)
+        B, _ = setup(case)
     # run() on a non-terminating program would never return: the reference decides termination first
     k = 0
     while not refA.done and k < 400:
@@ -874,6 +886,10 @@ def run_shard(spec, res):
                 # done before any instruction runs: every call is a no-op
                 case = {"text": rng.choice(["", "# nothing", ".data\nv: .word 3, 4", "\n\n"]), "pokes": {}, "acc": 0, "max_steps": 5}
                 res.count("empty_program_call_strings")
+                if rng.random() < 0.4:
+                    case["abandoned"] = True
+            elif rng.random() < 0.05:
+                case["abandoned"] = True
             case["kind"] = "halves"
             case["calls"] = gen_calls(rng, rng.randint(4, 60))
             guarded(run_case, prop, case, res)
